@@ -66,6 +66,14 @@ NOTES = {
  "C17-5b": "first run of C17 missed it (distinct common names only): the same common name several times",
  "C19-5a": "first run of C19 missed it (Check constraints drawn from large ranges, mask from 1): zero is drawn explicitly - which also uncovered the rekey date defect (repo 1a7f9cc)",
  "C20-5a": "first run of C20 missed it (no identifier-less item behind a Locate that singles out one object): batch grid gained placeholder items behind Locate/Get/Register",
+ "C03-6a": "first run of C03 ended in a harness error while the check was being edited; the version before had no Locate with filters by a requester without access, so the change was invisible to it: C03 gained the non-interference part (two stores that differ only in objects the requester may not touch)",
+ "C05-6a": "a concurrency change (lock narrowed to the batch): invisible to C05's sequential round trips by nature, caught by C10 (schedules)",
+ "C08-6a": "a concurrency change (lock moved from process_request to _process_batch): invisible to C08's sequential batches by nature, caught by C10 (schedules)",
+ "C11-6a": "caught by the first run with two cases only: C11 gained probes that are preceded by themselves and cases in which everybody speaks the probe's version",
+ "C12-6a": "first run of C12 missed it (the final request always had an encodable answer): the final request may now be one whose result the codec refuses to write",
+ "C18-6a": "first run of C18 (tools/selftest.sh before the confirmation batch) missed it: no event put a removed file back with the time stamp it had; C18 gained that letter, an alphabet for it and the random op",
+ "C20-6a": "the version of C20 before this round had no text longer than 50 characters and no requester name longer than 50 (not run against the change; the gap was closed before the confirmation batch ran): creating requests with long texts, a requester with a 59-character name",
+ "C13-6a": "caught by the first run (2**31 was in the prime menu); the menu gained primes around every byte boundary",
 }
 rows = {}
 for log in sys.argv[1:]:
